@@ -85,7 +85,14 @@ func ConnectSession(ctx context.Context, cluster *Cluster, config SessionConfig)
 	case <-ctx.Done():
 		return nil, ctx.Err()
 	case <-session.connected:
-		return session, nil
+		// A pool's critical failure is recorded before `connected` is closed. If both are ready by the time this
+		// goroutine gets here the failure must still win, otherwise a session with missing pools is handed out.
+		select {
+		case err = <-session.failed:
+			return nil, err
+		default:
+			return session, nil
+		}
 	case err = <-session.failed:
 		return nil, err
 	}
